@@ -439,13 +439,15 @@ def scratch_dir():
 UNIV = os.path.join(VERIF, "universe")
 
 
-def universe(kind, n, maxe=0, k=3, w=3, l=0, cap=12, scheme="plain", parts=16, zero=False):
+def universe(kind, n, maxe=0, k=3, w=3, l=0, cap=12, scheme="plain", parts=16, zero=False, path_only=False):
     """Instances (graph + planted flow) enumerated by TLC from spec/Universe.tla.  The result is cached in
     /verif/universe keyed by the parameters and the hash of the generating modules; a changed spec regenerates."""
     os.makedirs(UNIV, exist_ok=True)
     h = spec_hash("Graphs.tla", "Routes.tla", "Problems.tla", "Universe.tla", "Gen_Graphs.tla")
     name = f"{kind}_n{n}_e{maxe}_k{k}_w{w}_l{l}_c{cap}_{scheme}{'_z' if zero else ''}_{h}.ndjson"
     path = os.path.join(UNIV, name)
+    if path_only and os.path.exists(path):
+        return path
     if os.path.exists(path):
         return read_ndjson(path)
     sc = scratch_dir()
@@ -467,7 +469,7 @@ def universe(kind, n, maxe=0, k=3, w=3, l=0, cap=12, scheme="plain", parts=16, z
     recs.sort(key=lambda r: json.dumps(r, sort_keys=True))
     write_ndjson(path, recs)
     shutil.rmtree(sc, ignore_errors=True)
-    return recs
+    return path if path_only else recs
 
 
 # ---------------------------------------------------------------------------------------------
